@@ -6,6 +6,7 @@ EA = "E-A REPLICA-OPSEQ"
 EB = "E-B CTRL-BFS"
 EC = "E-C FS-CRASH"
 EF = "E-F CLUSTER"
+EE = "E-E REST-ENUM"
 ED = "E-D SCHED"
 checks = {
  "C06": dict(engine=EA, design="§3 E-A, §4 C06",
@@ -35,7 +36,7 @@ checks = {
    technique="explicit-state BFS with replay on the real replica.Server vs reference model"),
  "C17": dict(engine=EA, design="§3 E-A, §4 C17",
    text="Explicit-state BFS over the replica's open/closed x mode x rebuilding state machine (close, open, set-mode RW/WO/junk, set-rebuilding, reload) with every Server operation attempted as an event in every reachable state: writes are acknowledged only when open and RW/WO, every I/O call on a closed replica fails, removal/replace/revision-counter updates are refused (state unchanged) unless RW, invalid modes and out-of-state rebuilding flags are refused.",
-   note="Lenient reading recorded in evidence: a write refused in INIT mode has already written its data (Replica.WriteAt checks the mode afterwards); acknowledgements are compared, not side effects of refused writes. REST action gating is checked by E-E.",
+   note="Lenient reading recorded in evidence: a write refused in INIT mode has already written its data (Replica.WriteAt checks the mode afterwards); acknowledgements are compared, not side effects of refused writes. Part 2 (engine E-E, C17rest): for every replica state class and every REST action, an action absent from the state's action map (independent reference table) is answered 404 and leaves the canonical state key unchanged.",
    technique="explicit-state BFS with replay on the real replica.Server vs reference model"),
 
  "C02": dict(engine=EB, design="§3 E-B, §4 C02",
@@ -70,6 +71,10 @@ checks = {
    text="Explicit-state BFS on an in-process cluster of REAL replica.Server nodes behind the real replica/rest and controller/rest routers, with the real sync.Task.AddReplica running for the joining replica under step control: every top-level HTTP request of the task and the unlocked window inside UpdateLUNMap is a gate, and at every gate the explorer may insert foreground writes (also onto blocks that are being synced), a read, or kill the joining process (then monitor failure, restart and a retried rebuild); joiner empty or diverged (it missed writes and an add-time snapshot). At promotion the rebuilt replica's chain, revision counter, live image and every snapshot image (revert-on-copy) must equal the source's; before promotion no read is served by it and it holds every write acknowledged since it was attached; never two WO replicas; a killed rebuild leaves it out of the reader list.",
    note="Stand-in: jiva's sync-agent (a process launcher around ssync/sfold) is replaced by an in-process transfer with the same result (destination = source, data and holes, written into the existing inode). Several replica.Server in one process share package globals (HoleCreatorChan, ShouldPunchHoles). The background snapshot cleaner's ticker is not driven. RF=3, 4-block volume, <=3 foreground writes per rebuild.",
    technique="explicit-state BFS over gate-by-gate interleavings of the real rebuild task with foreground I/O on real replicas"),
+ "C14": dict(engine=EE, design="§3 E-E, §4 C14",
+   text="Explicit search over server states with the request alphabet itself as the transition relation, on the REAL routers (controller/rest and replica/rest via ServeHTTP, no sockets) in worker sub-processes: every method x every route template x id encodings x every action x body families (valid, unknown names, protected names, truncated at every JSON token boundary, wrong types, [], null, 1 MiB string, non-JSON) x content types, in 8 replica state classes and 7 controller state classes, depth 2 (thorough 3 for the reduced alphabet), plus every request repeated 8 times. After every request: no handler panic, no logrus.Fatal, the worker process is alive, the handler returned (20 s watchdog with goroutine dump), TryLock on the controller / replica server / replica locks succeeds, malformed or out-of-state requests got an error status, and fixed probe requests plus a one-block write/read are still served.",
+   note="Controller side runs over model replica nodes (E-B's); the route tables are compared with mux.Router.Walk of the real routers at start (mismatch = exit 2). Two known findings (absurd create size panic, failed quorum-replica add leaves a backend) are listed in known_findings.json.",
+   technique="explicit-state search over REST request sequences on the real routers, process-death detection in worker sub-processes"),
  "C15": dict(engine=ED, design="§3 E-D, §4 C15",
    text="(1) Exhaustive codec product: rpc.Wire.Write -> rpc.Wire.Read for every type x boundary seq/offset/size values x payload lengths around the 8096-byte buffer x patterns, every truncation point of an encoded frame and bad magic. (2) Stateless exploration of ALL interleavings, up to a preemption bound and a timer/fault deviation bound, of a real rpc.Client (its loop/read/write goroutines, channels, select statements, sleeps and timers turned into scheduling points by an AST rewrite applied at check time) with 2-3 caller threads, a scripted peer that answers in every permutation of reply order and may stall, close or corrupt at every frame: every caller gets the reply to its own request, after a transport error or deadline every pending and later request returns an error and no thread stays blocked once all armed timers fired, and a token reaches closeChan.",
    note="Scheduling points are synchronisation operations; unsynchronised accesses are reported by a separate free-running -race pass of the same harness bodies (listed in the evidence). Requests that fail only at their own 30 s deadline after racing with the poisoning of the client are recorded as observations (late-fail), as is a failed request being transmitted as an error frame; see DESIGN.",
@@ -107,6 +112,8 @@ def main():
         "kind_free_text": "E-B's cluster with real replica nodes, real REST routers and the real replica-side tasks (rebuild, clone) run under step control: explicit-state search over gate-by-gate interleavings"},
        {"name": ED, "path": "harness/ed, harness/cmd/ed, tools/instr, shim/vs, shim/vsync, shim/vtimev", "serves_properties": ["C15", "C10", "C05", "C18"],
         "kind_free_text": "cooperative scheduler + deviation-bounded stateless DFS over goroutine interleavings of the real rpc / remote / replica / controller code, instrumented at check time by an AST rewrite of go/chan/select/sync/time constructs"},
+       {"name": EE, "path": "harness/ee, harness/cmd/ee", "serves_properties": ["C14", "C17"],
+        "kind_free_text": "exhaustive REST request enumeration (method x route x id x action x body family) in every server state class, depth-2/3 search over request sequences, repeat family, on the real routers in worker sub-processes"},
        {"name": EC, "path": "harness/ec, harness/cmd/ec, tools/fstrace", "serves_properties": ["C08", "C10"],
         "kind_free_text": "ptrace-driven enumeration of every file-system-call boundary (crash) and every single failing call of replica operations from bounded pre-states"},
      ],
